@@ -179,6 +179,11 @@ def analyse(hist, rm: RM, outcome, cfg=None, want=None) -> Analysis:
                 if o is not None and o.q_end is None and o.tau is not None and o.tau[0] < t:
                     A.add(V("C10", "consumer_step_open", producer=sid, tau=tau, consumer=v,
                             consumer_tau=o.tau, q=q))
+                elif o is not None and o.q_end is None and o.tau is not None and o.tau < tau \
+                        and (sid, v) in rm.lazy_full:
+                    # same group, no data path resets a sub-time tier: sub-steps are ordered too
+                    A.add(V("C10", "consumer_step_open", producer=sid, tau=tau, consumer=v,
+                            consumer_tau=o.tau, subtime=True, q=q))
                 # demanded-but-not-yet-executed earlier steps of the consumer
                 # (checked from the other side below: a consumer step with main time
                 # < t that is asked after q)
@@ -191,6 +196,9 @@ def analyse(hist, rm: RM, outcome, cfg=None, want=None) -> Analysis:
                     if lu.tau is not None and tau[0] < lu.tau[0]:
                         A.add(V("C10", "consumer_step_after_producer", producer=u,
                                 producer_tau=lu.tau, consumer=sid, tau=tau, q=q))
+                    elif lu.tau is not None and tau < lu.tau and (u, sid) in rm.lazy_full:
+                        A.add(V("C10", "consumer_step_after_producer", producer=u,
+                                producer_tau=lu.tau, consumer=sid, tau=tau, subtime=True, q=q))
         return st
 
     def new_demand(u, t_u, cause, q):
